@@ -607,6 +607,7 @@ class SparseArray:
         return SparseArray(rows)
     
     def copy_like(self, other):
+        self._check_read_only()
         rows = self.rows
         for i, j in zip(rows, other.rows):
             i.copy_like(j)
@@ -685,6 +686,7 @@ class SparseArray:
         return False
     
     def remove_negatives(self):
+        self._check_read_only()
         for i in self.rows: i.remove_negatives()
     
     def shares_data_with(self, other):
@@ -715,6 +717,7 @@ class SparseArray:
         return arr
         
     def from_flat_array(self, arr):
+        self._check_read_only()
         rows = self.rows
         vector_size = self.vector_size
         dtype = self.dtype
@@ -888,6 +891,7 @@ class SparseArray:
                 if md == 0: 
                     rows[m][n] = value
                 elif md == 1: 
+                    self._check_read_only() # The stored entries are written directly below
                     dtype = self.dtype
                     if dtype is float:
                         nd = get_ndim(n)
@@ -1422,6 +1426,7 @@ class SparseVector:
             raise TypeError(f'cannot convert {type(obj).__name__} object to a sparse array')
     
     def mix_from(self, others):
+        if self.read_only: raise ValueError('assignment destination is read-only')
         if others: 
             other_dcts = [i.dct for i in others]
             dct = self.dct
@@ -1518,6 +1523,7 @@ class SparseVector:
             return dct.get(index, 0.)
     
     def remove_negatives(self):
+        if self.read_only: raise ValueError('assignment destination is read-only')
         dct = self.dct
         for i in tuple(dct): 
             if dct[i] < 0.: del dct[i]
@@ -1616,6 +1622,7 @@ class SparseVector:
         return SparseVector.from_dict(self.dct.copy(), self.size)
     
     def copy_like(self, other):
+        if self.read_only: raise ValueError('assignment destination is read-only')
         dct = self.dct
         if dct is other.dct: return
         dct.clear()
